@@ -367,8 +367,11 @@ func (r *c08Run) listLocked() bool {
 }
 
 // hold starts call, whose save of the checkpoints file stops at the gate; reports whether the gate was reached.
-func (r *c08Run) hold(id uint64, isCd bool, call func() (recovery.CheckpointHandle, error)) bool {
-	g := r.fs.armGate()
+func (r *c08Run) hold(id uint64, isCd bool, start func(), call func() (recovery.CheckpointHandle, error)) bool {
+	g := r.fs.armGate() // armed before the save can start
+	if start != nil {
+		start()
+	}
 	res := make(chan c08SaveRes, 1)
 	go func() {
 		defer func() {
@@ -581,8 +584,7 @@ func runC08Trace(c lib.Case) []string {
 			}
 			if f[0] == "hcd" && r.held == nil {
 				w := r.waits[id]
-				s.releaseCk(id)
-				if r.hold(id, true, w) {
+				if r.hold(id, true, func() { s.releaseCk(id) }, w) {
 					emit("held")
 				} else {
 					emit("timeout")
@@ -643,7 +645,7 @@ func runC08Trace(c lib.Case) []string {
 			}
 			kept := r.keptBy(ids)
 			if f[0] == "hretain" && r.held == nil && len(kept) > 0 {
-				if r.hold(0, false, func() (recovery.CheckpointHandle, error) {
+				if r.hold(0, false, nil, func() (recovery.CheckpointHandle, error) {
 					return recovery.CheckpointHandle{}, db.UpdateRetainedCheckpoints(ids)
 				}) {
 					r.lineage = kept
